@@ -170,7 +170,7 @@ class Chains:
     def _same_kind(idx, U):
         """steering only: an index whose values are no longer of the universe's kind (strings turned into integers by a
         faulty operation - that event is judged on its own) cannot be steered any further"""
-        want = str if isinstance(U[0], str) else int
+        want = str if isinstance(U[0], str) else (int, np.integer)
         return isinstance(idx.common, want) and all(isinstance(k[0], want) for k in dict.keys(idx))
 
     def ops_for(self, idx, big, strs=False):
